@@ -130,6 +130,11 @@ def main(argv=None):
     if procs == 1 or getattr(mod, "INPROCESS", False):
         results = [_work(j) for j in jobs]
     else:
+        # keep forked workers from copying the parent's heap page by page: collect once and move
+        # everything that exists now out of the garbage collector's reach
+        import gc
+        gc.collect()
+        gc.freeze()
         ctx = multiprocessing.get_context("fork")
         pool = ctx.Pool(procs, maxtasksperchild=1)
         try:
